@@ -84,7 +84,7 @@ def run(ck, tier):
     ck.rule("R-C16-pipeline", "harper_wasm::Linter::lint: Document::new_from_vec(source, parser(language), self.dictionary) -> overlay -> LintGroup::lint(&document) -> restore -> remove_overlaps -> remove_ignored(.., &document) -> problem_text = span.get_content_string(&source) of the same source vector, in this order")
     ck.rule("R-C16-samedoc", "ignore_lint / apply_suggestion build their Document from lint.language.create_parser() and self.dictionary; apply_suggestion applies suggestion.inner at lint.inner.span to the chars of the supplied text and returns them; clear_ignored_lints replaces the set; import_words -> extend_words -> synchronize_lint_dict (unguarded, or guarded by 'some imported spelling is not in the user dictionary yet' - not by 'the count grew': a word can replace an entry that differs only by case); synchronize_lint_dict rebuilds dictionary and lint_group and re-merges the saved config")
     ck.rule("R-C16-serde", "wasm Lint/Suggestion/Span and the core types under them derive Serialize+Deserialize without asymmetric attributes; to_json/from_json use serde_json::to_string/from_str")
-    ck.not_decided += ["returned lints lie inside the text and do not overlap (values)", "behavioural equality after export/import", "Suggestion::apply splice result (see C03)"]
+    ck.not_decided += ["returned lints lie inside the text (values; non-overlap is decided through the C13 rules, R-C16-overlap)", "behavioural equality after export/import", "Suggestion::apply splice result (see C03)"]
     p = facts.load()
     byk = fns_by_key(p)
     _pipeline(ck, p, byk)
